@@ -19,11 +19,15 @@ pub enum HKind {
     HighBits,
     /// every key collides
     Const,
+    /// well distributed, but every clone of the builder hashes differently
+    /// (a builder that re-seeds itself when cloned)
+    Reseed,
 }
 
-pub const ALL_HKINDS: [HKind; 8] = [
+pub const ALL_HKINDS: [HKind; 9] = [
     HKind::Sip, HKind::Fx, HKind::Identity, HKind::LowBits(1),
     HKind::LowBits(2), HKind::LowBits(4), HKind::HighBits, HKind::Const,
+    HKind::Reseed,
 ];
 
 impl HKind {
@@ -33,7 +37,7 @@ impl HKind {
 
     pub fn class(self) -> &'static str {
         match self {
-            HKind::Sip | HKind::Fx => "spread",
+            HKind::Sip | HKind::Fx | HKind::Reseed => "spread",
             HKind::Identity => "identity",
             HKind::LowBits(_) => "lowbits",
             HKind::HighBits => "highbits",
@@ -49,6 +53,7 @@ impl HKind {
             HKind::LowBits(b) => format!("lowbits:{}", b),
             HKind::HighBits => "highbits".into(),
             HKind::Const => "const".into(),
+            HKind::Reseed => "reseed".into(),
         }
     }
 
@@ -59,6 +64,7 @@ impl HKind {
             "identity" => HKind::Identity,
             "highbits" => HKind::HighBits,
             "const" => HKind::Const,
+            "reseed" => HKind::Reseed,
             _ => {
                 let b = s.strip_prefix("lowbits:")?.parse().ok()?;
                 HKind::LowBits(b)
@@ -80,26 +86,35 @@ pub fn reset_builds() {
     BUILDS.with(|c| c.set(0));
 }
 
+/// Start of a case: hasher clones are numbered from 0 again, so that a case's
+/// behaviour does not depend on the cases run before it.
+pub fn reset_clones() {
+    HCLONES.with(|c| c.set(0));
+}
+
 #[derive(Debug)]
 pub struct VHasher {
     pub kind: HKind,
+    pub salt: u64,
 }
 
 impl Clone for VHasher {
     fn clone(&self) -> VHasher {
-        HCLONES.with(|c| c.set(c.get() + 1));
-        VHasher { kind: self.kind }
+        let n = HCLONES.with(|c| { c.set(c.get() + 1); c.get() });
+        let salt = if self.kind == HKind::Reseed { self.salt.wrapping_add(n).wrapping_mul(0x2545_F491_4F6C_DD1D) | 1 } else { 0 };
+        VHasher { kind: self.kind, salt }
     }
 }
 
 impl VHasher {
     pub fn new(kind: HKind) -> VHasher {
-        VHasher { kind }
+        VHasher { kind, salt: 0 }
     }
 }
 
 pub struct VH {
     kind: HKind,
+    salt: u64,
     acc: u64,
     sip: std::collections::hash_map::DefaultHasher,
 }
@@ -111,7 +126,7 @@ impl BuildHasher for VHasher {
         BUILDS.with(|c| c.set(c.get() + 1));
         #[allow(deprecated)]
         let sip = std::collections::hash_map::DefaultHasher::new();
-        VH { kind: self.kind, acc: 0, sip }
+        VH { kind: self.kind, salt: self.salt, acc: 0, sip }
     }
 }
 
@@ -134,6 +149,7 @@ impl Hasher for VH {
             HKind::LowBits(b) => k & ((1u64 << b.min(16)) - 1),
             HKind::HighBits => k << 57,
             HKind::Const => 0,
+            HKind::Reseed => (k.wrapping_add(1) ^ self.salt).wrapping_mul(0x9E37_79B9_7F4A_7C15).rotate_left(31) ^ self.salt.rotate_left(17),
         }
     }
 }
